@@ -495,7 +495,7 @@ impl<'a> Gen<'a> {
             return self.wrap(p, false);
         }
         if roll == 5 && self.r.chance(1, 2) {
-            let b = Shape::Battery(self.r.below(3) as u8);
+            let b = Shape::Battery(*self.r.pick(&[0u8, 1, 2, 0, 1, 2, 3, 4][..]));
             return self.wrap(b, false);
         }
         if roll == 4 && self.sw.any {
@@ -894,7 +894,7 @@ pub fn sentence(r: &mut Rng, s: &Shape, hostile: bool, out: &mut Sentence) {
         Shape::Pure(_) | Shape::PureWith(_) | Shape::Fail(_) => {}
         Shape::Battery(kind) => {
             let toks: &[&str] = match kind {
-                0 | 1 => &["-v", "-q", "--verbose", "--quiet", "-vv", "-vq"],
+                0 | 1 | 3 | 4 => &["-v", "-q", "--verbose", "--quiet", "-vv", "-vq"],
                 _ => &["--on", "--off"],
             };
             let n = *r.pick(&[0usize, 1, 2, 4][..]);
